@@ -131,10 +131,10 @@ Definition signature (c : case) : N :=
   match c with
   | CJson _ text _ =>
     let n := S (String.length text) in
-    if ends_with_backslash_string n text then 16%N
-    else if has_sub n "\/" text || has_sub n "\ud8" text || has_sub n "\uD8" text
-            || has_sub n "\ud9" text || has_sub n "\uD9" text || has_sub n "\uda" text
-            || has_sub n "\uDA" text || has_sub n "\udb" text || has_sub n "\uDB" text then 21%N
+    if has_sub n "\/" text || has_sub n "\ud8" text || has_sub n "\uD8" text
+       || has_sub n "\ud9" text || has_sub n "\uD9" text || has_sub n "\uda" text
+       || has_sub n "\uDA" text || has_sub n "\udb" text || has_sub n "\uDB" text then 21%N
+    else if ends_with_backslash_string n text then 16%N
     else 0%N
   | CParse _ input RPanic => 1%N
   | _ => 0%N
